@@ -1,6 +1,7 @@
 """C10 (a timeline's export depends only on its own data and options) and C18 (independence of the process time zone)."""
 import json, os, subprocess, sys
 from concurrent.futures import ThreadPoolExecutor
+import common
 from common import Report, build_and_audit, drive, fields, rng_for, leanchecker, REPO, VERIF, PY, Infra
 import timeline_gen as TG
 
@@ -61,7 +62,7 @@ def gen_history(rng, tier):
 def body_c10(tier, seed, rep, only_prop=False, scale=1):
     import ref_export as RE
     rng = rng_for(seed, "c10")
-    n = (200 if tier == "quick" else 1500) * scale
+    n = common.count(tier, 200, 1500) * scale
     hist = [gen_history(rng, tier) for _ in range(n)]
     cache = {}
     jobs = sorted({json.dumps([s, b], sort_keys=True) for specs, bks, _ in hist for s, b in zip(specs, bks)})
